@@ -38,13 +38,13 @@ HARNESSES = [
                   {"ARGS": 6, "BSZ": 1024, "NK": 1},            # -o 4096 u dev
                   {"ARGS": 0, "BSZ": 1024, "NK": 0},            # empty undo file
                   {"ARGS": 0, "BSZ": 4096, "NK": 1},
-                  {"ARGS": 2, "BSZ": 48, "NK": 3},              # -f permits tiny blocks: 2 keys per key block -> two key blocks
-                  dict({"ARGS": 0, "BSZ": 1048576, "NK": 2}, **T),
-                  dict({"ARGS": 0, "BSZ": 1024, "NK": 3}, **T)],
+                  {"ARGS": 2, "BSZ": 48, "E2FSPROGS_VERIF_UNDO_MIN_BLOCK_SIZE": 48, "NK": 3},              # scaled minimum block size (hook H5): 2 keys per key block -> two key blocks
+                  {"ARGS": 0, "BSZ": 1048576, "NK": 2},             # largest block size e2undo accepts without -f
+                  {"ARGS": 0, "BSZ": 1024, "NK": 3}],
          unwind=7, unwindset=UW, backends=["default", "kissat"], cap_quick=150,
          bound="well-formed undo file: header + superblock copy + <= 2 key blocks + NK <= 3 keys of 1..512*block_size bytes (all sizes, "
                "target blocks < 2^31, layout start, fs block size, fs offset, FINISHED flag symbolic); undo block size 1024 (also 48 with -f, "
-               "4096; 1 MiB thorough); command lines: plain, -f, -z, -f -z, -o"),
+               "4096, 1 MiB); command lines: plain, -f, -z, -f -z, -o"),
     dict(name="undo_refuse", src="undo_refuse.c", funcs=REAL, cut_statics=CUT,
          configs=[{"ARGS": 0, "BSZ": 1024, "NK": 2},
                   {"ARGS": 3, "BSZ": 1024, "NK": 1},
@@ -54,6 +54,10 @@ HARNESSES = [
          unwind=7, unwindset=UW, backends=["default", "kissat"], cap_quick=150,
          bound="every damage class of header / superblock copy / key block / key (magic, each checksum outcome, feature words, sizes, mount "
                "state) symbolic and independent; undo block 1024, NK <= 2 keys; no -f, no -n"),
+    dict(name="undo_force", src="undo_force.c", funcs=REAL, cut_statics=CUT,
+         configs=[{"ARGS": 2, "BSZ": 1024, "NK": 2}, {"ARGS": 5, "BSZ": 1024, "NK": 1}],
+         unwind=7, unwindset=UW, backends=["default", "kissat"], cap_quick=150,
+         bound="as undo_refuse, command lines -f and -f -z; no I/O errors"),
     dict(name="undo_checkfs", src="undo_checkfs.c", funcs=["check_filesystem", "print_undo_mismatch", "io_channel_read_blk64"],
          configs=[{"BSZ": 1024, "DIFFPOS": 1023}, {"BSZ": 4096, "DIFFPOS": 200}],
          unwind=7, unwindset=UW, backends=["default", "kissat"], cap_quick=150,
@@ -64,7 +68,7 @@ HARNESSES = [
                   {"ARGS": 4, "BSZ": 1024, "NK": 2},            # -n -f u dev
                   {"ARGS": 10, "BSZ": 1024, "NK": 1},           # -n -z z u dev
                   {"ARGS": 7, "BSZ": 1024, "NK": 1},            # -nf -v -z z u dev
-                  {"ARGS": 4, "BSZ": 48, "NK": 3}],
+                  {"ARGS": 4, "BSZ": 48, "E2FSPROGS_VERIF_UNDO_MIN_BLOCK_SIZE": 48, "NK": 3}],
          unwind=7, unwindset=UW, backends=["default", "kissat"], cap_quick=150,
          bound="arbitrary undo file (all fields symbolic except block size 1024/48 and key count <= 3), every read / open may fail; "
                "command lines -n, -n -f, -n -z, -nf -v -z"),
@@ -73,9 +77,9 @@ HARNESSES = [
          configs=[{"ARGS": 0, "BSZ": 1024, "NK": 2},
                   {"ARGS": 2, "BSZ": 1024, "NK": 2},
                   {"ARGS": 4, "BSZ": 1024, "NK": 2},
-                  {"ARGS": 2, "BSZ": 48, "NK": 3},
+                  {"ARGS": 2, "BSZ": 48, "E2FSPROGS_VERIF_UNDO_MIN_BLOCK_SIZE": 48, "NK": 3},
                   {"ARGS": 0, "BSZ": 4096, "NK": 1},
-                  # GENUINE DEFECTS (fail on the unchanged tree; both confirmed with the built /repo/misc/e2undo: SIGSEGV):
+                  # regression queries for three repaired defects (known_findings.txt: fixed C06 c7ab47ae, 3a4c84b6, 5f2bee29):
                   {"ARGS": 2, "BSZ": 1024, "NK": 2, "VF_KB0_FAIL": None},      # -f, first key block unreadable: num_keys = i - 1 = SIZE_MAX
                   {"ARGS": 2, "BSZ": 16, "NK": 1},                             # -f, block_size 16..31: keys_per_block == 0
                   {"ARGS": 0, "BSZ": 1024, "NK": 1, "NUMKEYS": WRAP}],         # no -f: 24 * num_keys wraps size_t
@@ -92,12 +96,12 @@ MANIFEST = {
             "component leads to exit 1 before the first write; (C06) no read from the undo file exceeds its destination buffer and the "
             "key array is never over-indexed, for the queried block sizes.",
     "note": "Trusted: the protocol stubs (e2undo_env.h), the deterministic getopt, the cut of check_filesystem (closed by undo_checkfs), "
-            "CBMC's C semantics. Three undo_mem queries fail on the current tree (genuine defects, see the harness comments).",
+            "CBMC's C semantics. Three genuine defects undo_mem found on the pinned tree are repaired (known_findings.txt).",
 }
 
 def ENTRIES_FOR(prop):
     """HARNESSES entries to paste into harness/<prop>/spec.py"""
-    sel = {"C12": ("undo_replay", "undo_refuse", "undo_checkfs"), "C13": ("undo_dry", "undo_checkfs"), "C06": ("undo_mem",)}[prop]
+    sel = {"C12": ("undo_replay", "undo_refuse", "undo_force", "undo_checkfs"), "C13": ("undo_dry", "undo_checkfs"), "C06": ("undo_mem",)}[prop]
     out = []
     for h in HARNESSES:
         if h["name"] in sel:
